@@ -597,6 +597,45 @@ def r16_10(ctx):
     ctx.floor(rid, n, 1, "two-direction searches")
 
 
+def r16_11(ctx):
+    rid = "R16.11"
+    ctx.rule(rid, "a stored entry of a generic row may be zero: the member templates of Linear_Expression_Impl<Row> iterate over rows of either representation; a dense row stores every coefficient, zeros included. Where the sign of the entry under an iterator decides a comparison (`return 2*s` with s = sgn(*i)), the return is guarded by a test that the sign is not zero — otherwise the first stored entry of the longer operand, possibly a zero, decides, and two equal expressions of different representation compare different")
+    fx = ctx.extract([F.driver_unit("linexpr_impl.cc", file_re=r"Linear_Expression_Impl_templates\.hh")])
+    n = 0
+    seen = set()
+    for f in fx.functions:
+        if not f.flag("pattern") or (f.relfile, f.line) in seen:
+            continue
+        seen.add((f.relfile, f.line))
+        signs = {}
+        for v in f.walk():
+            if v["k"] == "var" and v.get("c"):
+                init = f.deref(v["c"][-1])
+                if init is not None and re.match(r"^sgn\(\*\w+\)$", f.text(init).replace(" ", "")):
+                    signs[v["n"]] = f.text(init).replace(" ", "")
+        for r in f.walk():
+            if r["k"] != "return" or not r.get("c"):
+                continue
+            e = f.deref(r["c"][0])
+            used = [x.get("n") for x in f.walk(e) if x["k"] == "ref" and x.get("n") in signs]
+            direct = [x for x in f.walk(e) if x["k"] in ("call", "mcall") and re.match(r"^sgn\(\*\w+\)$", f.text(x).replace(" ", ""))]
+            if not used and not direct:
+                continue
+            n += 1
+            inst = "%s: `%s` (line %s)" % (f.name, f.text(r)[:40], r.get("l"))
+            guarded = False
+            for a in f.ancestors(r):
+                if a["k"] == "if":
+                    ct = f.text(f.deref(a["c"][2])).replace(" ", "")
+                    if any(re.search(r"\b%s(!=|>|<)0" % re.escape(u), ct) for u in used) or (direct and re.search(r"sgn\(\*\w+\)(!=|>|<)0", ct)):
+                        guarded = True
+            if guarded:
+                ctx.ok(rid, inst, f.where(r))
+            else:
+                ctx.violation(rid, inst, f.where(r), "the sign of the entry under the iterator is returned without a test that it is not zero: for a dense row the entry may be a stored zero, which then decides the comparison")
+    ctx.floor(rid, n, 4, "comparisons decided by the sign of a stored entry")
+
+
 def run(ctx):
     ctx.explanation = ("C16 structural clauses: Dense/Sparse dispatch arms, Representation switches and explicit "
                        "specialisations agree (necessary for representation independence); decides the dispatch clause, "
@@ -613,6 +652,7 @@ def run(ctx):
     r16_8(ctx)
     r16_9(ctx)
     r16_10(ctx)
+    r16_11(ctx)
     from rules import dirty
     fxd = ctx.extract([F.lib_unit(n) for n in ("Linear_Expression.cc", "Linear_Expression_Impl.cc", "Sparse_Row.cc", "Dense_Row.cc", "Scalar_Products.cc", "CO_Tree.cc")]
                       + [F.driver_unit("domains.cc", file_re=r"(Linear_Expression_Impl_templates|Linear_Expression_inlines|Linear_System_templates|Matrix_templates|Sparse_Row_templates)\.hh")])
